@@ -23,6 +23,7 @@ MUTANTS = {
     'dh-wrong-equation': (B, '(y * y - (x * x * x + self.a * x + self.b)) % self.p == 0', '(y * y - (x * x * x + self.a * x)) % self.p == 0', 'EccKey.dh', 'curve equation without b (fix-1 mutated)'),
     'dh-check-inverted': (B, 'if not self.private_key.curve.is_on_curve(x, y):', 'if self.private_key.curve.is_on_curve(x, y):', 'EccKey.dh', 'on-curve test inverted'),
     'dh-swapped-coordinates': (B, 'if not self.private_key.curve.is_on_curve(x, y):', 'if not self.private_key.curve.is_on_curve(y, x):', 'EccKey.dh', 'coordinates swapped in the on-curve test'),
+    'mul-no-progress': (B, '            k = k >> 1\n        return result', '            k = k >> 0\n        return result', '__mul__', 'double-and-add never consumes the scalar (non-termination)'),
     'ah-padding-side': (T, 'r_prime = r + padding', 'r_prime = padding + r', 'toolbox_ah', "ah: r' padded on the wrong side"),
     'c1-swapped-addresses': (T, 'p2 = ra + ia + bytes([0, 0, 0, 0])', 'p2 = ia + ra + bytes([0, 0, 0, 0])', 'toolbox_c1', 'c1: initiating/responding address swapped in p2'),
     's1-wrong-half': (T, 'return e(k, r2[0:8] + r1[0:8])', 'return e(k, r2[8:16] + r1[0:8])', 'toolbox_s1', 's1: most significant half of r2 used'),
